@@ -2,7 +2,7 @@
 import ast
 
 from ..pymodel import AnalysisError, FuncInfo, parent
-from ..astutil import (src, is_name, is_attr, is_const, const_num, call_name, walk_no_nested,
+from ..astutil import (alpha_src, src, is_name, is_attr, is_const, const_num, call_name, walk_no_nested,
                        strip_docstring, compare_atoms, enclosing_stmt, calls_in, names_in,
                        assignments_to, kwarg)
 from ..cfg import cfg_of, ENTRY, EXIT
@@ -190,8 +190,8 @@ def rules(ctx):
         if m is None or t is None:
             ctx.inst('R03.5', (pcso.module.relpath, 'PCSO'), 'def %s' % name, False, "property vanished")
             continue
-        a = [src(n.value) for n in walk_no_nested(strip_docstring(m.node.body)) if isinstance(n, ast.Return)]
-        b = [src(n.value) for n in walk_no_nested(strip_docstring(t.node.body)) if isinstance(n, ast.Return)]
+        a = [alpha_src(n.value) for n in walk_no_nested(strip_docstring(m.node.body)) if isinstance(n, ast.Return)]
+        b = [alpha_src(n.value) for n in walk_no_nested(strip_docstring(t.node.body)) if isinstance(n, ast.Return)]
         deleg = any(src(c.func) in ('PCBO.%s.fget' % name,) for c in calls_in(m.node))
         ok = (a == b and bool(a)) or deleg
         ctx.inst('R03.5', m, 'def %s' % name, ok,
